@@ -182,6 +182,18 @@ Definition from_hdf5_subset (ids_ : list Z) (a : axis) (f : h5file) : result tab
     ROk (drop_empty (other a) t)
   end.
 
+(* The request may be any iterable (list, tuple, set, dict view, generator, numpy array): since
+   646d8139 _get_ids starts with np.asarray(list(desired_ids)); only its elements matter (F45). *)
+
+(* parse_table / parse_biom_table on an open HDF5 handle (parse.py:419-440): the first attempt is
+   Table.from_hdf5(file_obj, ids=ids, axis=axis); a ValueError (an unknown id) is swallowed and the
+   handle falls through to json.loads(file_obj), which raises TypeError *)
+Definition parse_table_h5 (ids_ : list Z) (a : axis) (f : h5file) : result table :=
+  match from_hdf5_subset ids_ a f with
+  | RErr c => if Z.eqb c E_VALUE then RErr E_TYPE else RErr c
+  | r => r
+  end.
+
 (* ------------------------------------------------------------------ metadata-free variant *)
 (* Table.from_hdf5(h, ids=ids, axis=a, subset_with_metadata=False)  (table.py:4203-4242) *)
 Definition from_hdf5_subset_nomd (ids_ : list Z) (a : axis) (f : h5file) : result table :=
